@@ -4,6 +4,7 @@ package h2c
 
 import (
 	"github.com/oasisprotocol/curve25519-voi/curve"
+	"github.com/oasisprotocol/curve25519-voi/internal/field"
 	"github.com/oasisprotocol/curve25519-voi/internal/verif"
 )
 
@@ -22,4 +23,19 @@ func ga_NU(domainSeparator, message []byte) (*curve.EdwardsPoint, error) {
 	verif.Havoc(&p)
 	curve.SetPid(&p, GEncodeToCurveNU(domainSeparator, message))
 	return &p, nil
+}
+
+// Elligator 2 (edwards flavour) as an uninterpreted function of the canonical field value
+func GEll2(fe *field.Element) verif.BV {
+	var b [32]byte
+	_ = fe.ToBytes(b[:])
+	return verif.UFBV("elligator2_edwards", 256, verif.BVLE(b[:]))
+}
+
+//verif:contract for=internal/elligator.EdwardsFlavor group=gapi
+func ga_Ell2(r *field.Element) *curve.EdwardsPoint {
+	var p curve.EdwardsPoint
+	verif.Havoc(&p)
+	curve.SetPid(&p, GEll2(r))
+	return &p
 }
